@@ -320,8 +320,10 @@ class Report:
             'violations': len(self.violations),
             'known_findings_reported': self.known,
         }
-        os.makedirs(os.path.join(VERIF, 'evidence'), exist_ok=True)
-        path = os.path.join(VERIF, 'evidence', '%s.json' % self.prop)
+        # runs against a scratch tree (VERIF_REPO override) must not overwrite the evidence for /repo
+        evdir = os.path.join(VERIF, 'evidence') if os.path.realpath(REPO) == '/repo' else os.path.join(VERIF, 'evidence', 'scratch')
+        os.makedirs(evdir, exist_ok=True)
+        path = os.path.join(evdir, '%s.json' % self.prop)
         with open(path, 'w') as f:
             json.dump(ev, f, indent=1, sort_keys=True, default=str)
         return 1 if self.violations else 0
